@@ -10,7 +10,9 @@
     cons x r `once(head).chain(l)`                                    (Alt arm)
     chain    `l.run(cv).chain(lazy(|| r.run(cv)))`                    (Comma)
     flat     `flat_map_then_with` in its general case (`FlatMap`)     (Pipe, as, if, and/or, Path)
-    wrap s a `from_fn` of limit!/skip!, `map_while` of label_run, try_catch_run, `filter`, `map`, `Stack`
+    wrap s a `from_fn` of limit!/skip!, `map_while` of label_run, try_catch_run, `filter`, `map`, `Stack`,
+             the loop of `collect()`, the `map` of `cartesian`
+    fold     `flat_map_then_with(init, xs, |i, xs| fold(xs, i, …))` over the shared `rc_lazy_list::List`
     inputs   `inputs(cv)` (`Map` over the shared `&RcIter`)
     range    `from_fn` of `range`
 -/
@@ -28,6 +30,14 @@ inductive It where
   | wrap (s : Wr) (a : It)
   | inputs
   | range (cur to by_ : Int)
+  -- round 2: `fold` (jaq-core/src/fold.rs) under the `flat_map_then_with` over `init`, with the
+  -- shared lazily memoised list of `xs` (jaq-core/src/rc_lazy_list.rs).  `cells` are the nodes
+  -- forced so far, `src` is the iterator the next node is forced from (`ended`: it returned
+  -- `None`, the last node is `Node(None)`), `ini` the iterator of `init`, `stack` the explicit
+  -- stack of `fold` for the current output of `init` (`nil` / `fInp` / `fOut`, top first).
+  | fold (kind : FoldKind) (upd : T) (ctx : Ctx) (cells : List Item) (src : It) (ended : Bool) (ini : It) (stack : It)
+  | fInp (pos : Nat) (y : Val) (rest : It)            -- `(xs, Fold::Input(y))`, `xs` at node `pos`
+  | fOut (pos : Nat) (x : Val) (ys : It) (rest : It)  -- `(xs, Fold::Output(x, ys))`
   deriving Repr, Inhabited
 
 /-- upper bound of `size_hint` (`Chain` with a lazy right side, `FlatMap` with a live source,
@@ -41,6 +51,9 @@ def It.upper : It → Option Nat
   | .wrap s a => if s.transparent then a.upper else none
   | .inputs => none
   | .range .. => none
+  | .fold .. => none
+  | .fInp .. => none
+  | .fOut .. => none
 
 abbrev MkRes := Option (It × World)
 abbrev NextRes := Option (Option Item × It × World)
@@ -74,6 +87,49 @@ def collectIfOnce (nextF : It → World → NextRes) (ia : It) (i : T) (ctx : Ct
     | some (none, _, w2) => some (.idxR i ctx v, w2)
   else some (.idxR i ctx v, w)
 
+/-- `map_with(xs.run(cv), ctx, |y, ctx| ctx.cons_var(y))` of `run_and_bind`, given the freshly built
+iterator `a` of `xs`: `next_if_one` pulls it **now** when its upper bound is 1 (the result is a
+`box_once`), otherwise a `Map` (which the model identifies with `a`: the cells of the list hold
+the values, the binding happens where `update` is run). -/
+def mkMapSrc (nextF : It → World → NextRes) (a : It) (w : World) : MkRes :=
+  if a.upper = some 1 then
+    match nextF a w with
+    | none => none
+    | some (some x, _, w2) => some (.once x, w2)
+    | some (none, _, w2) => some (.nil, w2)
+  else some (a, w)
+
+/-- `map_with(r.run(cv), l, |r, l| (l, r))` of `cartesian` followed by the `map` of `Ast::Math`,
+given the freshly built iterator `b` of the right operand -/
+def mkMathR (nextF : It → World → NextRes) (op : MathOp) (y : Val) (b : It) (w : World) : MkRes :=
+  if b.upper = some 1 then
+    match nextF b w with
+    | none => none
+    | some (some x, _, w2) => some (.once (mathItem op y x), w2)
+    | some (none, _, w2) => some (.nil, w2)
+  else some (.wrap (.mathL op y) b, w)
+
+/-- `flat_map_then(fold(…), |(ctx, y)| run(proj, (ctx, y)))` around the fold of `foreach` with a
+projection (`fold` is a `from_fn`: no upper bound, nothing is pulled) -/
+def wrapProj (kind : FoldKind) (p : T) (ctx : Ctx) (it : It) : It :=
+  match kind with
+  | .foreachP => .flat it (.proj p ctx) .nil
+  | _ => it
+
+/-- `flat_map_then_with(init, xs, |i, xs| fold(xs, i, …))` given the freshly built iterator `ib` of
+`init`: `next_if_one` pulls it **now** when its upper bound is 1 (the fold for that single output
+is the result), otherwise a `FlatMap` over `init` -/
+def mkFoldInit (nextF : It → World → NextRes) (kind : FoldKind) (upd p : T) (ctx : Ctx) (src ib : It) (w3 : World) : MkRes :=
+  if ib.upper = some 1 then
+    match nextF ib w3 with
+    | none => none
+    | some (some x, _, w4) =>
+      match x.val? with
+      | some i => some (wrapProj kind p ctx (.fold kind upd ctx [] src false .nil (.fInp 0 i .nil)), w4)
+      | none => some (.once x, w4)
+    | some (none, _, w4) => some (.nil, w4)
+  else some (wrapProj kind p ctx (.fold kind upd ctx [] src false ib .nil), w3)
+
 /-- `Id::run`, one level: build the iterator of `v | t` in context `ctx`; `mkF`/`nextF` are
 `mk`/`next` for the sub-terms (with less fuel) -/
 def mkStep (D : List T) (mkF : T → Ctx → Val → World → MkRes) (nextF : It → World → NextRes)
@@ -89,6 +145,10 @@ def mkStep (D : List T) (mkF : T → Ctx → Val → World → MkRes) (nextF : I
     | .var i =>
       match lookup ctx i with
       | some x => some (.once x, w)
+      | none => some (.nil, w)
+    | .fvar i =>                      -- `Bind::Fun((id, vars))`: `id.run((cv.0.with_vars(vars), cv.1))`
+      match lookupFn ctx i with
+      | some (t, env) => mkF t ⟨env, ctx.labels⟩ v w
       | none => some (.nil, w)
     | .input =>                       -- `inputs(cv).next().into_iter()`: consumed while building
       match w.read with
@@ -163,6 +223,50 @@ def mkStep (D : List T) (mkF : T → Ctx → Val → World → MkRes) (nextF : I
       | none => some (.nil, w)
     | .tcall i =>                     -- `Throw`: nothing is built until the trampoline pulls
       some (.chain .nil (.call i) ctx v, w)
+    | .callA ty i skip args =>        -- `bind_vars` is a `box_once`: `flat_map_then` builds the body **now**
+      match callCtx ctx skip args v with
+      | none => some (.nil, w)
+      | some c' =>
+        match D[i]? with
+        | some body =>
+          match mkF body c' v w with
+          | none => none
+          | some (a, w1) =>
+            match ty with
+            | .inline => some (a, w1)
+            | .catch_ => some (.wrap .stack a, w1)
+        | none => some (.nil, w)
+    | .tcallA i skip args =>          -- `Throw`: the arguments are bound now, the body is built by the trampoline
+      match callCtx ctx skip args v with
+      | none => some (.nil, w)
+      | some c' => some (.chain .nil (.callA .inline i 0 []) c' v, w)
+    | .arr f =>                       -- `box_once(f.run(cv).collect())`: all of `f` is run **now**
+      match mkF f ctx v w with
+      | none => none
+      | some (a, w1) =>
+        match nextF (.wrap (.collect []) a) w1 with
+        | none => none
+        | some (some x, _, w2) => some (.once x, w2)
+        | some (none, _, w2) => some (.nil, w2)
+    | .math op l r =>                 -- `cartesian(l, r, cv)`: the left operand is the outer loop
+      match mkF l ctx v w with
+      | none => none
+      | some (a, w1) => mkFlatWith mkF nextF a (.math op r ctx v) w1
+    | .mathR op y r =>
+      match mkF r ctx v w with
+      | none => none
+      | some (b, w1) => mkMathR nextF op y b w1
+    | .fold kind xs init upd p =>     -- `xs` is built first, then `init`; the list is not forced
+      match mkF xs ctx v w with
+      | none => none
+      | some (a, w1) =>
+        match mkMapSrc nextF a w1 with
+        | none => none
+        | some (src, w2) =>
+          match mkF init ctx v w2 with
+          | none => none
+          | some (ib, w3) =>
+            mkFoldInit nextF kind upd p ctx src ib w3
     | .index f i =>                   -- index filter first (`collect_if_once`), then the head
       match mkF i ctx v w with
       | none => none
@@ -173,6 +277,37 @@ def mkStep (D : List T) (mkF : T → Ctx → Val → World → MkRes) (nextF : I
           match mkF f ctx v w2 with
           | none => none
           | some (a, w3) => mkFlatWith mkF nextF a k w3
+
+/-- `xs.next()` returned `None`: `outer(y)` (`reduce` delivers the state, `foreach` nothing) -/
+def foldEnd (nextF : It → World → NextRes) (kind : FoldKind) (upd : T) (ctx : Ctx) (cells : List Item) (src : It)
+    (ended : Bool) (ini : It) (y : Val) (rest : It) (w : World) : NextRes :=
+  match kind with
+  | .reduce => some (some (.ok y), .fold kind upd ctx cells src ended ini rest, w)
+  | _ => nextF (.fold kind upd ctx cells src ended ini rest) w
+
+/-- `xs.next()` returned the node `cell` (the list pointer moves on to `pos + 1`): an element
+starts `update` (**built now**: `f(x, y)`), an exception is delivered and the branch ends -/
+def foldCell (mkF : T → Ctx → Val → World → MkRes) (nextF : It → World → NextRes) (kind : FoldKind) (upd : T)
+    (ctx : Ctx) (cells : List Item) (src : It) (ended : Bool) (ini : It) (pos : Nat) (y : Val) (rest : It)
+    (cell : Item) (w : World) : NextRes :=
+  match cell.val? with
+  | some x =>
+    match mkF upd (ctx.consVar x) y w with
+    | none => none
+    | some (ys, w2) => nextF (.fold kind upd ctx cells src ended ini (.fOut (pos + 1) x ys rest)) w2
+  | none => some (some cell, .fold kind upd ctx cells src ended ini rest, w)
+
+/-- an output `yi` of `update` for the element `x`: it becomes the next state (`Input(y)` is
+pushed); `foreach` delivers it (`inner`), `reduce` goes on; an exception is delivered -/
+def foldOut (nextF : It → World → NextRes) (kind : FoldKind) (upd : T) (ctx : Ctx) (cells : List Item) (src : It)
+    (ended : Bool) (ini : It) (pos : Nat) (x : Val) (yi : Item) (rest' : It) (w : World) : NextRes :=
+  match yi.val? with
+  | some yv =>
+    match kind with
+    | .reduce => nextF (.fold kind upd ctx cells src ended ini (.fInp pos yv rest')) w
+    | .foreach => some (some (.ok yv), .fold kind upd ctx cells src ended ini (.fInp pos yv rest'), w)
+    | .foreachP => some (some (.ok (pairVal x yv)), .fold kind upd ctx cells src ended ini (.fInp pos yv rest'), w)
+  | none => some (some yi, .fold kind upd ctx cells src ended ini rest', w)
 
 /-- `Iterator::next`, one level -/
 def nextStep (mkF : T → Ctx → Val → World → MkRes) (nextF : It → World → NextRes)
@@ -215,7 +350,10 @@ def nextStep (mkF : T → Ctx → Val → World → MkRes) (nextF : It → World
       if s.ready then
         match nextF a w with
         | none => none
-        | some (none, a', w1) => some (none, .wrap s a', w1)
+        | some (none, a', w1) =>
+          match s.atEnd with
+          | none => some (none, .wrap s a', w1)
+          | some x => some (some x, .nil, w1)
         | some (some x, a', w1) =>
           match s.step x with
           | .emit x' s' => some (some x', .wrap s' a', w1)
@@ -226,6 +364,36 @@ def nextStep (mkF : T → Ctx → Val → World → MkRes) (nextF : It → World
             | none => none
             | some (b, w2) => nextF b w2
       else some (none, .wrap s a, w)
+    | .fInp .. => none                -- frames are not iterators
+    | .fOut .. => none
+    | .fold kind upd ctx cells src ended ini stack =>
+      match stack with
+      | .fInp pos y rest =>           -- `Fold::Input(y)`: `xs.next()` on the lazy list
+        match cells[pos]? with
+        | some cell => foldCell mkF nextF kind upd ctx cells src ended ini pos y rest cell w
+        | none =>
+          if ended then foldEnd nextF kind upd ctx cells src ended ini y rest w
+          else
+            -- `Lazy::force`: the node is forced by exactly one `next()` of the underlying iterator
+            match nextF src w with
+            | none => none
+            | some (none, _, w1) => foldEnd nextF kind upd ctx cells .nil true ini y rest w1
+            | some (some x, src', w1) => foldCell mkF nextF kind upd ctx (cells ++ [x]) src' false ini pos y rest x w1
+      | .fOut pos x ys rest =>        -- `Fold::Output(x, ys)`
+        match nextF ys w with
+        | none => none
+        | some (none, _, w1) => nextF (.fold kind upd ctx cells src ended ini rest) w1
+        | some (some yi, ys', w1) =>
+          -- "do not grow the stack if the output is empty"
+          foldOut nextF kind upd ctx cells src ended ini pos x yi (if ys'.upper = some 0 then rest else .fOut pos x ys' rest) w1
+      | _ =>                          -- the fold of the current output of `init` is over: `FlatMap` pulls `init`
+        match nextF ini w with
+        | none => none
+        | some (none, _, w1) => some (none, .nil, w1)
+        | some (some x, ini', w1) =>
+          match x.val? with
+          | some i => nextF (.fold kind upd ctx cells src ended ini' (.fInp 0 i .nil)) w1
+          | none => some (some x, .fold kind upd ctx cells src ended ini' .nil, w1)
 
 mutual
 /-- `Id::run` with fuel `n` (`none` = out of fuel) -/
